@@ -56,6 +56,28 @@ def run_clex(exe, d, mode, idx, text, lexer, tag):
     return toks, status, code, out, err
 
 
+def print_oracle(text):
+    """printing all tokens of a text without quotes, backslashes and block comments gives the text back"""
+    return text if not any(x in text for x in ('"', "'", '\\', '/*')) else None
+
+
+BIG = 3000      # beyond this size an input is only run (sanitizers, exit status, print oracle): the independent Python lexer
+                # tries every end position for every rule and is quadratic
+
+
+def run_clex_raw(exe, d, mode, idx, text, tag):
+    src = d / f'in.{tag}.c'
+    src.write_bytes(text.encode('latin-1'))
+    env = dict(os.environ, ASAN_OPTIONS='detect_leaks=0:abort_on_error=0:exitcode=99', UBSAN_OPTIONS='halt_on_error=1:exitcode=98')
+    env.pop('CLEX_TOKENS', None)
+    try:
+        r = subprocess.run([str(exe), mode, str(idx), str(src)], capture_output=True, env=env, timeout=60)
+        code, out, err = r.returncode, r.stdout.decode('latin-1'), r.stderr.decode('latin-1', 'replace')
+    except subprocess.TimeoutExpired:
+        code, out, err = 'timeout', '', ''
+    return None, 'BIG', code, out, err
+
+
 def classify(code, err):
     if code in (51, 71):
         return str(code)
@@ -189,6 +211,14 @@ def gen_texts(ctx):
              '#define P P\nP\n#define Q 3\nQ Q\n',
              # carriage returns, form feeds, vertical tabs and bytes outside ASCII outside of literals
              'a\r\nb\r\n', 'x\ry', 'int a;\r\n/* c */\r\nint b;\r', 'a\fb\vc', 'caf\xe9 = 1;\r\n', '\r', 'a \r b']
+    # definitions nobody uses in front of used ones (only used macros occupy an index), in every order
+    texts += ['#define A 1\n#define B 2\nB\n', '#define U\n#define V 3\nV V\n#define W 4\n', '#define A 1\n#define B 2\n#define C 3\nC\n',
+              '#define A 1\nA\n#define B 2\n#define C 3\nC C\n', '#define A B\n#define B 1\nx\n', '#define A 1\n#define B 2\nA\n']
+    # several kilobytes of token text with every alignment of the token ends (storage carved from blocks, buffers that are
+    # grown by doubling): token lengths 1 … 7 cycling, shifted by 0 … 7 one-character tokens in front
+    for off in range(8):
+        body = ';' * off + ''.join(('t' * (1 + (j * 3 + off) % 7)) + ('=' if j % 2 else ' ') for j in range(1500 if quick else 9000))
+        texts.append(body + '\n')
     # sizes that cross the growth steps of the helper's tables (token list, identifier index): many distinct identifiers,
     # many tokens, long tokens
     for k in (8, 9, 10, 16, 17, 18, 31, 33, 64, 65, 129, 300):
@@ -228,6 +258,8 @@ def run(ctx):
         ms = modes if ti < 40 or ctx.tier != 'quick' else ctx.rng.sample(modes, 4)
         if ctx.tier == 'quick' and len(text) > 60:
             ms = ['rename-toks', 'define', 'rm-toks-16', 'print', 'shorten-string']      # the table-growth inputs: modes that build tables
+        if len(text) > 3000:
+            ms = ['print', 'rm-toks-16', 'define']                                       # the big inputs: a few probes each
         for mode in ms:
             jobs.append((ti, text, mode))
 
@@ -236,8 +268,11 @@ def run(ctx):
         res = []
         stops = 0
         idx = 0
-        while stops < 3 and idx < 40:
-            toks, status, code, out, err = run_clex(exe, d, mode, idx, text, lexer, f'{ti}.{mode}.{idx}')
+        while stops < 3 and idx < (40 if len(text) <= BIG else 3):
+            if len(text) > BIG and getattr(ctx, 'scanner', '').startswith('generated'):
+                toks, status, code, out, err = run_clex_raw(exe, d, mode, idx, text, f'{ti}.{mode}.{idx}')
+            else:
+                toks, status, code, out, err = run_clex(exe, d, mode, idx, text, lexer, f'{ti}.{mode}.{idx}')
             res.append((idx, toks, status, code, out, err))
             if code != 51:
                 stops += 1
@@ -255,6 +290,14 @@ def run(ctx):
                 fam = mode.rstrip('0123456789').rstrip('-')
                 if cls == 'crash':
                     ctx.report('sanitizer-report-or-crash:' + fam, f'clex {mode} {idx} on {text!r}: exit {code}: {err.strip().splitlines()[1][:160] if len(err.strip().splitlines()) > 1 else err[:160]}', scen)
+                elif status == 'BIG':
+                    # judged without the Python lexer: print mode against the lexer-independent oracle, prefix property
+                    if mode == 'print' and code == 51 and print_oracle(text) is not None and out != print_oracle(text):
+                        ctx.report('print-output-is-not-the-input-minus-comments:print', f'clex print on a {len(text)}-character input', scen)
+                    if code == 51 and seen_stop:
+                        ctx.report('OK-after-STOP:' + fam, f'clex {mode}: index {idx} produces output after a smaller index reported STOP on a {len(text)}-character input', scen)
+                    if code == 71:
+                        seen_stop = True
                 else:
                     sig = spec(mode, idx, text, toks, status, code, out, lexer)
                     if sig:
